@@ -20,7 +20,7 @@ ASSUMPTIONS = ["the objective's exceptions are raised by the harness wrapper bef
 FAULTS = ("ok", "TimeoutError", "RuntimeError", "other")
 # "any other exception": one foreign type per configuration (OSError is the parent class of TimeoutError, LookupError /
 # ArithmeticError are common parents of what numerical objectives raise)
-FOREIGN = {"unit": ValueError, "neg_prec": FileNotFoundError, "tiny_huge": ZeroDivisionError, "far_prec": KeyError, "offgrid": OSError}
+FOREIGN = {"unit_surrogate_trained": LookupError, "neg_prec_surrogate_step2": ArithmeticError, "unit": ValueError, "neg_prec": FileNotFoundError, "tiny_huge": ZeroDivisionError, "far_prec": KeyError, "offgrid": OSError}
 
 
 def zoo():
@@ -84,6 +84,9 @@ CONFIGS = {
     "tiny_huge": ([[0.0, 1e-9], [-1e12, 1e12]], [{}, {}]),
     "far_prec": ([[1e6, 1e6 + 1.0], [0.0, 1.0]], [{"precision": 1e-1}, {"precision": 1e-3}]),
     "offgrid": ([[0.0, 1.6], [0.0, 0.37]], [{"precision": 0.5}, {"precision": 0.05}]),
+    # a predicting surrogate (already trained / retrained every second evaluation) sits between Job and the objective
+    "unit_surrogate_trained": ([[0.0, 1.0], [-5.0, 5.0]], [{}, {}]),
+    "neg_prec_surrogate_step2": ([[-3.0, -1.0], [0.1, 1.0]], [{}, {"precision": 1e-3}]),
 }
 
 
@@ -116,6 +119,14 @@ class Env:
                 if exc is not None:
                     raise exc
             problem = make_problem(n_params=2, bounds=bounds, param_extra=extra, f=f, before=before)
+            if "_surrogate_" in cfg:
+                from artap.surrogate_scikit import SurrogateModelScikit
+                from .c19 import StubScikit
+                sur = SurrogateModelScikit(problem)
+                sur.regressor = StubScikit()
+                sur.trained = cfg.endswith("trained")
+                sur.train_step = -1 if cfg.endswith("trained") else 2
+                problem.surrogate = sur
             env["problem"] = problem
             env["alg"] = DummyAlgorithm(problem)
             cls._cache[cfg] = env
@@ -142,6 +153,10 @@ def body_factory(cfg, nbatch, extreme, seed, same_vector=False, scalar=False, fo
         env["fault_price"] = 1 if nbatch >= 3 else 0
         env["foreign"] = foreign
         problem.failed = []
+        if "_surrogate_" in cfg:
+            problem.surrogate.trained = cfg.endswith("trained")
+            problem.surrogate.eval_counter = 0
+            problem.surrogate.x_data, problem.surrogate.y_data = [], []
         problem.h_log = []
         problem.individuals = []
         reset_ids()
@@ -268,6 +283,21 @@ def _shard(shard, col: Collector):
         explore(body, col, bound=shard[1], sub="parallel", on_exec=on_exec2, case_extra={"bound": shard[1]})
         col.sample({"kind": "parallel workers", "designs": 2, "workers": 2, "deviation_bound (faults + pre-emptions)": shard[1]}, 1)
         return
+    if shard[0] == "worst":
+        # the same protocol under the worst-case evaluator: a design that fails 1..4 times is re-sampled, and what is finally
+        # stored (objective value AND sensitivity, neighbours) belongs to the finally stored vector
+        from . import c14
+        for n in (1, 2):
+            for bs in ((1,), (2,), (1, 1)):
+                for fc in ((0,), (0, 1), (0, 1, 2), (0, 1, 2, 3)):
+                    for crit in ("minimize", "maximize"):
+                        col.case()
+                        col.nontrivial(("worst", n, bs, fc, crit))
+                        for key, msg in c14.check_worst(n, 1, (0.5,) * n, "sumsq", crit, bs, fc):
+                            col.violation(key.replace("C14:worst:", "C06:worst-case-evaluator:"), "worst", msg,
+                                          {"n": n, "batches": bs, "fail_calls": fc, "crit": crit})
+        col.sample({"kind": "worst-case evaluator, failing designs", "fail_calls": [0, 1, 2]}, 1)
+        return
     if shard[0] == "zoo":
         # every member of the exception zoo as the answer of attempt 1..5 (after 0..4 transient failures), array and scalar path
         for name, make in zoo():
@@ -302,6 +332,10 @@ def replay(sub, case):
         from . import c07
         ctx, out = run_once(c07.body_factory(2, False, False, "free", None), case["choices"])
         return out
+    if sub == "worst":
+        from . import c14
+        return [(k.replace("C14:worst:", "C06:worst-case-evaluator:"), m) for k, m in
+                c14.check_worst(case["n"], 1, (0.5,) * case["n"], "sumsq", case["crit"], tuple(case["batches"]), tuple(case["fail_calls"]))]
     if sub == "zoo":
         make = dict(zoo())[case["name"]]
         ctx, out = run_once(body_factory("unit", 1, False, case["seed"], False, case["scalar"], make), case["choices"])
@@ -323,6 +357,9 @@ def run(tier, seed):
     shards.append(("neg_prec", 2, False, None, seed))
     shards.append(("parallel", 2 if tier == "thorough" else 1))
     shards.append(("zoo", seed))
+    shards.append(("worst",))
+    shards.append(("unit_surrogate_trained", 2, False, None, seed))
+    shards.append(("neg_prec_surrogate_step2", 2, False, None, seed))
     shards.append(("unit", 1, False, None, seed, False, True))      # the scalar bridge: every pattern for 1 and 2 calls
     shards.append(("neg_prec", 2, False, None, seed, False, True))
     shards.append(("far_prec", 1, True, 1, seed, False, True))
